@@ -21,7 +21,7 @@ structure ValIff (cx : Ctx F E) (d : Nat) : Prop where
   int : ∀ n (s : S F) v, R.val ((execRec cx d).intValue n) s = .ok v ↔ (valSem cx d).int n s = some v
 
 theorem valIff (cx : Ctx F E) (hnf : NoFormulaNodes cx) (d : Nat) : ValIff cx d :=
-  ⟨fun n s v => ⟨(valIH cx hnf d).int n s v, (specIH cx d).int n s v⟩⟩
+  ⟨fun n s v => ⟨(valIH cx hnf d).int n s v, (specIH cx hnf d).int n s v⟩⟩
 
 /-- induction hypothesis: successful writes one level down are the reference writes -/
 structure SetIH (cx : Ctx F E) (d : Nat) : Prop where
@@ -29,6 +29,7 @@ structure SetIH (cx : Ctx F E) (d : Nat) : Prop where
   float : ∀ n v (s s' : S F), M.eff ((execRec cx d).floatSet n v) s = (.ok (), s') ↔ (setSem cx d).float n v s = some s'
   str : ∀ n v (s s' : S F), M.eff ((execRec cx d).strSet n v) s = (.ok (), s') ↔ (setSem cx d).str n v s = some s'
   enum : ∀ n v (s s' : S F), M.eff ((execRec cx d).enumSetByValue n v) s = (.ok (), s') ↔ (setSem cx d).enum n v s = some s'
+  bool : ∀ n v (s s' : S F), M.eff ((execRec cx d).boolSet n v) s = (.ok (), s') ↔ (setSem cx d).bool n v s = some s'
 
 theorem slotUpdate_eff (id : SlotId) (x : ValueData F) (s : S F) :
     M.eff (slotUpdate id x) s = (.ok (), slotSet s id x) := rfl
@@ -350,13 +351,13 @@ theorem strRegSet_iff {d : Nat} (ihB : ValIH cx d) (ihA : SpecIH cx d) {rb : Reg
 
 /-! ### per interface, induction -/
 
-theorem intSetF_iff {d : Nat} (hnf : NoFormulaNodes cx) (ihB : ValIH cx d) (ihA : SpecIH cx d)
-    (ih : SetIH cx d) {n : NodeId} {v : Int} {s s' : S F} :
+theorem intSetF_iff {d : Nat} {n : NodeId} (hn : NoFormulaAt cx n) (ihB : ValIH cx d) (ihA : SpecIH cx d)
+    (ih : SetIH cx d) {v : Int} {s s' : S F} :
     M.eff (intSetF cx (execRec cx d) n v) s = (.ok (), s') ↔
       (setStep cx (valSem cx d) (setSem cx d)).int n v s = some s' := by
   unfold intSetF
   simp only [setStep]
-  have hn := hnf n
+  unfold NoFormulaAt at hn
   cases hg : cx.graph n with
   | none => simp
   | some nd =>
@@ -365,13 +366,13 @@ theorem intSetF_iff {d : Nat} (hnf : NoFormulaNodes cx) (ihB : ValIH cx d) (ihA 
     · exact intRegSet_iff ihB ihA
     · exact maskedSet_iff ihB ihA
 
-theorem floatSetF_iff {d : Nat} (hnf : NoFormulaNodes cx) (ihB : ValIH cx d) (ihA : SpecIH cx d)
-    (ih : SetIH cx d) {n : NodeId} {v : F} {s s' : S F} :
+theorem floatSetF_iff {d : Nat} {n : NodeId} (hn : NoFormulaAt cx n) (ihB : ValIH cx d) (ihA : SpecIH cx d)
+    (ih : SetIH cx d) {v : F} {s s' : S F} :
     M.eff (floatSetF cx (execRec cx d) n v) s = (.ok (), s') ↔
       (setStep cx (valSem cx d) (setSem cx d)).float n v s = some s' := by
   unfold floatSetF
   simp only [setStep]
-  have hn := hnf n
+  unfold NoFormulaAt at hn
   cases hg : cx.graph n with
   | none => simp
   | some nd =>
@@ -425,6 +426,15 @@ theorem enumSetByValueF_iff {d : Nat} (ih : SetIH cx d) {n : NodeId} {v : Int} {
     | err e => simp [resOpt]
     | panic => simp [resOpt]
 
+theorem boolSetF_iffI {d : Nat} (ih : SetIH cx d) (n : NodeId) (b : Bool) (s s' : S F) :
+    M.eff (boolSetF cx (execRec cx d) n b) s = (.ok (), s') ↔ specBoolSetP cx (setSem cx d) n b s = some s' := by
+  unfold boolSetF specBoolSetP
+  cases hg : cx.graph n with
+  | none => simp
+  | some nd =>
+    cases nd <;> simp only <;> try (simp; done)
+    exact sonSetInt_iff ih
+
 /-- successful writes at depth `d` are the reference writes (no formula nodes) -/
 theorem setIH (cx : Ctx F E) (hnf : NoFormulaNodes cx) : ∀ d, SetIH cx d
   | 0 => by
@@ -432,11 +442,22 @@ theorem setIH (cx : Ctx F E) (hnf : NoFormulaNodes cx) : ∀ d, SetIH cx d
   | d + 1 => by
     have ih := setIH cx hnf d
     have ihB := valIH cx hnf d
-    have ihA := specIH cx d
+    have ihA := specIH cx hnf d
     constructor <;> intro n v s s' <;> simp only [execRec, step, setSem]
-    · exact intSetF_iff hnf ihB ihA ih
-    · exact floatSetF_iff hnf ihB ihA ih
+    · exact intSetF_iff (hnf _) ihB ihA ih
+    · exact floatSetF_iff (hnf _) ihB ihA ih
     · exact strSetF_iff ihB ihA ih
     · exact enumSetByValueF_iff ih
+    · exact boolSetF_iffI ih n v s s'
+
+/-- the three inductions together (under `NoFormulaNodes` here; for every graph in
+Proofs/C03SpecFormula.lean) -/
+structure IHs (cx : Ctx F E) : Prop where
+  val : ∀ d, ValIH cx d
+  spec : ∀ d, SpecIH cx d
+  set : ∀ d, SetIH cx d
+
+theorem IHs.ofNoFormula (cx : Ctx F E) (hnf : NoFormulaNodes cx) : IHs cx :=
+  ⟨valIH cx hnf, specIH cx hnf, setIH cx hnf⟩
 
 end CamVerif.C03
